@@ -1,6 +1,6 @@
 ----------------------------- MODULE Isa6800_Gen -----------------------------
 EXTENDS Isa6800
-CONSTANTS Cpu, K, Salt
+CONSTANTS Cpu, K, Salt, Step
 VARIABLES form, ops, pc
 INSTANCE IsaGen
 ASSUME TableSane
